@@ -2,11 +2,13 @@ package util
 
 import (
 	"bytes"
+	"fmt"
 	"io/ioutil"
 	"os"
 	"path"
 	"path/filepath"
 	"strings"
+	"sync/atomic"
 )
 
 // tempFilePrefix is the prefix of files which are used to write a value.
@@ -44,8 +46,15 @@ func NewFileStorage(dir string) (Storage, error) {
 // or the new one – even when the program is stopped while the value is written.
 func (f *fileStorage) Set(key string, value []byte) error {
 	verifCrashPoint("set:begin")
+	// The temporary file belongs to this write alone: another process (or goroutine) which
+	// writes the same key at the same time must not write to, rename or remove it.
 	tmp := f.tempFilePathToFile(key)
-	file, err := os.OpenFile(tmp, os.O_WRONLY|os.O_CREATE|os.O_TRUNC, 0666)
+	file, err := os.OpenFile(tmp, os.O_WRONLY|os.O_CREATE|os.O_EXCL, 0666)
+	for i := 0; i < 1000 && os.IsExist(err); i++ {
+		// left over from a process with the same id which was stopped while writing
+		tmp = f.tempFilePathToFile(key)
+		file, err = os.OpenFile(tmp, os.O_WRONLY|os.O_CREATE|os.O_EXCL, 0666)
+	}
 
 	if err != nil {
 		return err
@@ -126,10 +135,14 @@ func (f *fileStorage) filePathToFile(file string) string {
 	return filepath.Join(f.dir(), fname)
 }
 
-// tempFilePathToFile returns the path of the temporary file which is used to write the value for key
+// tempFileCount numbers the temporary files of this process
+var tempFileCount uint64
+
+// tempFilePathToFile returns the path of a new temporary file which is used to write the value for key
 func (f *fileStorage) tempFilePathToFile(key string) string {
 	fname := removeInvalidFileNameCharacters(key)
-	return filepath.Join(f.dir(), tempFilePrefix+fname)
+	n := atomic.AddUint64(&tempFileCount, 1)
+	return filepath.Join(f.dir(), fmt.Sprintf("%s%s-%d-%d", tempFilePrefix, fname, os.Getpid(), n))
 }
 
 func (f *fileStorage) fileForRead(key string) (*os.File, error) {
